@@ -38,12 +38,14 @@ Definition expected_fingerprints : list (string * string) :=
    ("curve_post_init", "b003cde30e3bfe5d2967589ecd34729b");
    ("ecc_key_init", "25148dc4b4120dd44fcc5d144c4f9c9e");
    ("ecc_from_private_key_bytes", "d7faa9ce517ad0bb88b040c076727de7");
+   ("address_resolver_init", "16c880dd7301cb19ad7e6c8cd96cf6e0");
    ("address_resolver_resolve", "da01c91ca8c8c802772a67950fdc5cf1");
    ("address_bytes", "417368273f7764459f16868d7d79d0d3");
    ("point_class", "697788ec175e886516e5480a3ca9d70b");
    ("jacobian_class", "08e6eb57502f6c76c33237bb001f6316");
    ("ecc_key_class", "d7dc45683ee1b7e6ec40a45313f76b3b");
-   ("cmac_class", "78976cbd4423842087913e8352c481fd")].
+   ("cmac_class", "78976cbd4423842087913e8352c481fd");
+   ("address_resolver_class", "7370cbeffce459f81cb7acc32a0dbb2b")].
 
 Definition source_fingerprints : list (string * string) :=
   [("builtin_xor", fp_builtin_xor);
@@ -60,12 +62,14 @@ Definition source_fingerprints : list (string * string) :=
    ("curve_post_init", fp_curve_post_init);
    ("ecc_key_init", fp_ecc_key_init);
    ("ecc_from_private_key_bytes", fp_ecc_from_private_key_bytes);
+   ("address_resolver_init", fp_address_resolver_init);
    ("address_resolver_resolve", fp_address_resolver_resolve);
    ("address_bytes", fp_address_bytes);
    ("point_class", fp_point_class);
    ("jacobian_class", fp_jacobian_class);
    ("ecc_key_class", fp_ecc_key_class);
-   ("cmac_class", fp_cmac_class)].
+   ("cmac_class", fp_cmac_class);
+   ("address_resolver_class", fp_address_resolver_class)].
 
 Theorem cmac_init_source_unchanged : src_cmac_init = expected_cmac_init.
 Proof. reflexivity. Qed.
